@@ -345,6 +345,10 @@ func RunnerMain() int {
 		for _, cr := range o.crashes {
 			// a dead worker: confirm in a fresh process, then report as a crash violation
 			first := strings.SplitN(cr, "\n", 2)[0]
+			if harnessPanic(cr) {
+				trouble = append(trouble, "the simulator itself panicked (not the system under test): "+firstLines(cr, 12))
+				continue
+			}
 			parts := strings.Fields(first)
 			if len(parts) == 2 {
 				seed, _ := strconv.ParseUint(parts[1], 10, 64)
@@ -435,6 +439,32 @@ func firstLines(s string, n int) string {
 		lines = lines[:n]
 	}
 	return strings.Join(lines, "\n")
+}
+
+// harnessPanic reports whether the panicking goroutine died in simulator code rather than in the system under test.
+func harnessPanic(out string) bool {
+	i := strings.Index(out, "\npanic: ")
+	if i < 0 {
+		i = strings.Index(out, "panic: ")
+	}
+	if i < 0 {
+		return false
+	}
+	rest := out[i:]
+	j := strings.Index(rest, "goroutine ")
+	if j < 0 {
+		return false
+	}
+	stack := rest[j:]
+	if k := strings.Index(stack, "\n\n"); k > 0 {
+		stack = stack[:k]
+	}
+	for _, l := range strings.Split(stack, "\n") {
+		if strings.HasPrefix(l, "github.com/saucelabs/forwarder/") || strings.HasPrefix(l, "github.com/saucelabs/forwarder.") {
+			return strings.Contains(l, "/internal/verifsim/")
+		}
+	}
+	return false
 }
 
 func crashFeature(out string) string {
